@@ -23,6 +23,7 @@ func VerifC01History() {
 			return nil
 		})
 		vndAssert(err == nil, "transaction failed")
+		vndKnown("KF-merge-reorder", w.mergeReorder())
 		w.commitModel()
 		w.check(w.c, "after commit")
 	}
